@@ -113,6 +113,7 @@ class FutRec(object):
         self.raised = None
         self.t_start = None
         self.pool_conn_at_start = None
+        self.start_info = None
 
     @property
     def done(self):
@@ -228,7 +229,14 @@ class Machine(object):
                 self.creator = _pool_caller()
                 self.handlers = []
                 self.close_snapshot = None
+                self.factory_returned_at = None
                 base.__init__(self, *a, **kw)
+
+            @classmethod
+            def factory(cls, endpoint, timeout, *a, **kw):
+                conn = base.factory.__func__(cls, endpoint, timeout, *a, **kw)
+                conn.factory_returned_at = m.sim.world.now
+                return conn
 
             def send_msg(self, msg, request_id, cb, *a, **kw):
                 rec = Rec(self, request_id, msg, len(m.recs), m.sim.world.now)
@@ -324,6 +332,14 @@ class Machine(object):
         self.pooled_conns()
         return new
 
+    def replace_running(self):
+        """a pool replacement task (HostConnection._replace) is queued or running on the executor"""
+        for ex in self.sim.executors:
+            for a in ex.tasks:
+                if not a.done and a.name == "task:_replace":
+                    return True
+        return False
+
     def unanswered(self, conn):
         return [s for s in self.sreqs if s.conn is conn and s.answered is None]
 
@@ -339,8 +355,12 @@ class Machine(object):
         f = FutRec(tag, t)
         f.t_start = self.sim.world.now
         pool = self.current_pool()
-        if pool is not None and hasattr(pool, "_connection") and not getattr(pool, "_is_replacing", False):
+        if pool is not None and hasattr(pool, "_connection") and not self.replace_running():
             f.pool_conn_at_start = pool._connection
+        x = getattr(pool, "_connection", None)
+        if x is not None and not pool.is_shutdown:
+            f.start_info = dict(pool=pool, conn=x, orphans=len(x.orphaned_request_ids), thr=x.orphaned_threshold,
+                                replacing=self.replace_running(), dead=bool(x.is_closed or x.is_defunct))
         self.futs[tag] = f
         stmt = SimpleStatement(PREFIX + str(tag))
         f.actor = self.sim.spawn(self.session.execute_async, stmt, timeout=t)
